@@ -1,6 +1,7 @@
 package main
 
 import (
+	"fmt"
 	"math/big"
 
 	"golang.org/x/tools/go/ssa"
@@ -10,6 +11,8 @@ func registerExtraIntrinsics() {
 	intrinsics["(*math/big.Int).SetString"] = inBigSetString
 	intrinsics["(*math/big.Int).Text"] = inBigText
 	registerURLIntrinsics()
+	intrinsics["strconv.FormatUint"] = inFormatUint
+	registerJSIntrinsics()
 }
 
 // math/big by contract.  Concrete text is evaluated natively; symbolic text is
@@ -71,4 +74,55 @@ func assumptionsFor(prop string) []string {
 		"SMT solvers z3 4.8.12 / z3 5.1.0 / cvc5 1.0.3 are sound (thorough tier cross-checks unsat answers on a second solver)",
 		"HMAC-SHA1/256/512 are modelled as uninterpreted functions of (key bytes, message bytes); results hold for every digest value",
 	}
+}
+
+// strconv.FormatUint(x, 10) by contract: the shortest decimal rendering of x.  One path per
+// number of digits k (10^(k-1) <= x < 10^k); the digits are (x / 10^(k-1-j)) % 10.
+func inFormatUint(e *Exec, args []Value, site *ssa.CallCommon) Value {
+	x := args[0].(*Term)
+	base := args[1].(*Term)
+	if !base.IsConst() || base.val != 10 {
+		panic(e.unsupported("strconv.FormatUint with base != 10"))
+	}
+	if x.IsConst() {
+		return e.constString(fmt.Sprintf("%d", x.val))
+	}
+	tb := e.tb
+	maxk := 20
+	ub := upperBound(x)
+	p := uint64(1)
+	for k := 1; k <= 19; k++ {
+		p *= 10
+		if ub < p {
+			maxk = k
+			break
+		}
+	}
+	var conds []*Term
+	pow := make([]uint64, 21)
+	pow[0] = 1
+	for k := 1; k <= 19; k++ {
+		pow[k] = pow[k-1] * 10
+	}
+	for k := 1; k <= maxk; k++ {
+		c := tb.True()
+		if k > 1 {
+			c = tb.Ule(tb.Const(64, pow[k-1]), x)
+		}
+		if k <= 19 {
+			c = tb.And(c, tb.Ult(x, tb.Const(64, pow[k])))
+		}
+		conds = append(conds, c)
+	}
+	k := e.choose(conds, "FormatUint-digits") + 1
+	// digits as a division chain (q -> q/10), least significant first
+	ds := make([]*Term, k)
+	q := x
+	ten := tb.Const(64, 10)
+	for j := k - 1; j >= 0; j-- {
+		d := tb.URem(q, ten)
+		ds[j] = tb.Add(tb.Extract(d, 7, 0), tb.Const(8, '0'))
+		q = tb.UDiv(q, ten)
+	}
+	return e.mkString(ds)
 }
